@@ -147,8 +147,49 @@ fn gen_tables(tier: &str, rng: &mut Rng, slice: &'static str, allow_empty: bool)
 fn gen_c05(tier: &str, rng: &mut Rng) -> Vec<Case> {
     gen_tables(tier, rng, "regular", true)
 }
+/// Tiny tables: one- or two-letter cells (every letter unique), entirely empty columns, narrow
+/// widths - the window where the side-by-side / stacked decision and the shrink loop meet.
+pub fn tiny_table(rng: &mut Rng) -> (String, Vec<String>) {
+    let rows = rng.range(1, 3);
+    let cols = rng.range(2, 5);
+    let empty_col: Vec<bool> = (0..cols).map(|_| rng.chance(1, 3)).collect();
+    let mut next = 0u8;
+    let mut toks = Vec::new();
+    let mut html = String::from("<table>");
+    for _ in 0..rows {
+        html.push_str("<tr>");
+        for c in 0..cols {
+            if empty_col[c] || rng.chance(1, 6) || next >= 24 {
+                html.push_str("<td></td>");
+            } else {
+                let mut t = String::new();
+                for _ in 0..rng.range(1, 2) {
+                    t.push((b'a' + next) as char);
+                    next += 1;
+                }
+                html.push_str(&format!("<td>{}</td>", t));
+                toks.push(t);
+            }
+        }
+        html.push_str("</tr>");
+    }
+    html.push_str("</table>");
+    (html, toks)
+}
 fn gen_c06(tier: &str, rng: &mut Rng) -> Vec<Case> {
-    gen_tables(tier, rng, "regular_nonempty", false)
+    let mut cases = gen_tables(tier, rng, "regular_nonempty", false);
+    let n = if tier == "thorough" { 20000 } else { 1500 };
+    for _ in 0..n {
+        let (html, toks) = tiny_table(rng);
+        let w = rng.range(1, 12);
+        let mut cfg = Cfg { deco: *rng.pick(&[0u8, 1, 3]), ..Default::default() };
+        if rng.chance(1, 3) {
+            cfg.no_borders = true;
+        }
+        let id = cases.len();
+        cases.push(mk_case(id, 0, cfg, w, html.into_bytes(), Some(0), Meta::G { role: "tiny", strs: toks, nums: vec![] }, "tiny_tables"));
+    }
+    cases
 }
 
 fn stacked(lines: &[String]) -> bool {
@@ -264,6 +305,21 @@ fn nontrivial_tables(_c: &Case, r: &RunResult) -> bool {
 fn check_c06(cases: &[Case], results: &[Option<RunResult>]) -> Vec<Violation> {
     let mut v = Vec::new();
     for (i, c) in cases.iter().enumerate() {
+        if c.meta.role() == "tiny" {
+            // every cell with text is rendered (side by side or stacked): each letter exactly once
+            if let Some(t) = results[i].as_ref().and_then(|r| r.outcome.text()) {
+                for tok in c.meta.strs() {
+                    for ch in tok.chars() {
+                        let k = t.chars().filter(|x| *x == ch).count();
+                        if k != 1 {
+                            v.push(viol(i, "a column holding text got no space (its cell is not rendered exactly once)", format!("letter {:?} appears {} times in {:?}", ch, k, t), None));
+                            break;
+                        }
+                    }
+                }
+            }
+            continue;
+        }
         if c.meta.role() != "table" || c.meta.nums()[0] != 0 {
             continue; // cell placement is checked on flat tables
         }
@@ -377,14 +433,23 @@ fn gen_c07(tier: &str, rng: &mut Rng) -> Vec<Case> {
         let deco = *rng.pick(&[0u8, 1, 2, 3]);
         let kind = rng.below(6);
         let start: i64 = *rng.pick(&[-100i64, -10, -1, 0, 1, 9, 10, 98, 99, 999]);
+        // ids / classes on the structural elements themselves must not change the text output
+        let mut at = |rng: &mut Rng| -> String {
+            match rng.below(4) {
+                0 => format!(" id=\"w{}\"", rng.below(50)),
+                1 => " class=\"ca\"".to_string(),
+                _ => String::new(),
+            }
+        };
+        let (a1, a2) = (at(rng), at(rng));
         let (outer, prefix_first, prefix_rest): (String, String, String) = match kind {
-            0 => (format!("<ul><li>{}</li></ul>", inner), "* ".into(), "  ".into()),
-            1 => (format!("<blockquote>{}</blockquote>", inner), "> ".into(), "> ".into()),
+            0 => (format!("<ul{}><li{}>{}</li></ul>", a1, a2, inner), "* ".into(), "  ".into()),
+            1 => (format!("<blockquote{}>{}</blockquote>", a1, inner), "> ".into(), "> ".into()),
             2 => {
                 let p = format!("{}. ", start);
-                (format!("<ol start=\"{}\"><li>{}</li></ol>", start, inner), p.clone(), " ".repeat(p.len()))
+                (format!("<ol{} start=\"{}\"><li{}>{}</li></ol>", a1, start, a2, inner), p.clone(), " ".repeat(p.len()))
             }
-            3 => (format!("<dl><dd>{}</dd></dl>", inner), "  ".into(), "  ".into()),
+            3 => (format!("<dl{}><dd{}>{}</dd></dl>", a1, a2, inner), "  ".into(), "  ".into()),
             _ => {
                 // headings take inline content
                 let mut gnr = Gen::new(rng, GenOpts { links: false, ids: false, imgs: false, sup: false, strike: false, br: false, ..Default::default() });
@@ -429,9 +494,14 @@ fn gen_c07(tier: &str, rng: &mut Rng) -> Vec<Case> {
         let start: i64 = *rng.pick(&[-100i64, -12, -10, -9, -1, 0, 1, 2, 8, 9, 10, 95, 98, 99, 100, 995, 999]);
         let absent = rng.chance(1, 5);
         let nitems = rng.range(1, 15);
-        let mut html = if absent { String::from("<ol>") } else { format!("<ol start=\"{}\">", start) };
+        let ida = if rng.chance(1, 3) { format!(" id=\"n{}\"", rng.below(50)) } else { String::new() };
+        let mut html = if absent { format!("<ol{}>", ida) } else { format!("<ol{} start=\"{}\">", ida, start) };
         for k in 0..nitems {
-            html.push_str(&format!("<li>item{}</li>", k));
+            if rng.chance(1, 8) {
+                html.push_str(&format!("<li id=\"i{}\">item{}</li>", k, k));
+            } else {
+                html.push_str(&format!("<li>item{}</li>", k));
+            }
         }
         html.push_str("</ol>");
         let deco = *rng.pick(&[0u8, 1, 2]);
